@@ -78,9 +78,9 @@ def reachability(ctx):
     def rec(x):
         return "%s(%s,P%d,P%d)" % (R, x, i_reg, i_set)
     t = show(N.term(fn["body"]), 10 ** 6)
-    head = "early{HashSet::contains(P%d,P%d)=>return '()'}{HashSet::insert(P%d,P%d);" % (i_set, i_id, i_set, i_id)
+    head = "early{Not(HashSet::insert(P%d,P%d))=>return '()'}{" % (i_set, i_id)
     ctx.expect(t.startswith(head), "C08.3", "reach/guard-and-root", fn["sp"], "visited check first; the root id itself is inserted", "traversal starts with: " + t[:160])
-    TP = "for(%s.type_params){if(let v1::Some($)=Option::map(elem(%s.type_params).ty,|1|{C1_0.id})){%s}else{'()'}}" % (TY, TY, rec("Option::map(elem(%s.type_params).ty,|1|{C1_0.id})@v1::Some.0" % TY))
+    TP = "for(%s.type_params){if(let v1::Some($)=elem(%s.type_params).ty){%s}else{'()'}}" % (TY, TY, rec("elem(%s.type_params).ty@v1::Some.0.id" % TY))
     ctx.expect(TP in t, "C08.3", "reach/type-params", fn["sp"], "every non-skipped type parameter is visited", "type-parameter loop changed")
     arms = {
         "Composite": "TypeDef::Composite($)=>for(%s.type_def@TypeDef::Composite.0.fields){%s}" % (TY, rec("elem(%s.type_def@TypeDef::Composite.0.fields).ty.id" % TY)),
@@ -165,8 +165,8 @@ def flatten(ctx):
         if sym == "PATHS":
             pt = N.local_term(lid)
             init = pt[2] if pt[0] == "mut" else pt
-            exp_p = ("Iterator::collect(Iterator::filter_map(%s,|1|{if(Path::is_empty(C1_0.ty.path)){v1::None}else{match(utils::syn_type_path(C1_0.ty)){v1::Ok($)=>Some(Ok((C1_0.id,utils::syn_type_path(C1_0.ty)@v1::Ok.0)));"
-                     "v1::Err($)=>Some(Err(utils::syn_type_path(C1_0.ty)@v1::Err.0))}}}))?") % REG
+            exp_p = ("Iterator::collect(Iterator::map(Iterator::filter(%s,|1|{Not(Path::is_empty(C1_0.ty.path))}),|1|{match(utils::syn_type_path(C1_0.ty)){"
+                     "v1::Ok($)=>Ok((C1_0.id,utils::syn_type_path(C1_0.ty)@v1::Ok.0));v1::Err($)=>Err(utils::syn_type_path(C1_0.ty)@v1::Err.0)}}))?") % REG
             expect_term(ctx, "C08.4", "flatten/id-path-table", fn["sp"], init, exp_p, "id -> path for every entry that has a path")
     # result
     lits = list(q.struct_lits(fn["body"], "derives::FlatDerivesRegistry"))
